@@ -230,3 +230,77 @@ func VerifC15PostGet(h *verifh.H) {
 	}
 	h.Observe("body", len(body))
 }
+
+// transaction payload fragments: the value of a dataset key
+var vTxnDsFrags = []string{
+	`[{"id":"ex:e1","props":{"ex:n":"a"},"refs":{}}]`, // valid
+	`[]`, // valid: no entities
+	`[{"id":"ex:e1","props":{},"refs":{}},{"id":"ex:e2","props":{},"refs":{"ex:k":"ex:e1"}}]`, // valid
+	`5`,
+	`"x"`,
+	`null`,
+	`{"id":"ex:e1","props":{},"refs":{}}`,
+	`[5]`,
+	`["x",{"id":"ex:e1","props":{},"refs":{}}]`,
+	`[[{"id":"ex:e1","props":{},"refs":{}}]]`,
+	`[{"id":5}]`,
+	`[{"id":"ex:e1","refs":{"ex:k":5}}]`,
+	`[{"id":"nope:e1","props":{},"refs":{}}]`,
+}
+
+// VerifC15Txn: ParseTransaction over the grammar-mutated family of transaction
+// payloads (context fragment, two dataset keys with any value fragment,
+// truncation at any byte): a valid payload parses to exactly the entities it
+// denotes; any other payload yields an error or, at worst, a transaction that
+// contains nothing assembled from a malformed element — never a panic.
+func VerifC15Txn(h *verifh.H) {
+	hub := VerifNewHub(h)
+	ctxFrags := []string{
+		`{"namespaces":{"ex":"http://example.com/x/"}}`, // valid
+		`{}`,
+		`{"namespaces":"oops"}`,
+		`{"namespaces":{"ex":5}}`,
+		`5`,
+		`null`,
+		`[1]`,
+	}
+	c := h.Choice("ctx", len(ctxFrags))
+	d1 := h.Choice("d1", len(vTxnDsFrags))
+	d2 := h.Choice("d2", 4) // 0: no second dataset, 1..3: a valid fragment
+	doc := `{"@context":` + ctxFrags[c] + `,"ds1":` + vTxnDsFrags[d1]
+	if d2 > 0 {
+		doc += `,"ds2":` + vTxnDsFrags[d2-1]
+	}
+	doc += `}`
+	valid := c == 0 && d1 < 3
+	if h.Param("truncate", 0) == 1 && valid && h.Choice("truncated", 2) == 1 {
+		doc = doc[:h.Choice("cut", len(doc))]
+		valid = false
+	}
+	txn, err := NewEntityStreamParser(hub.Store).ParseTransaction(strings.NewReader(doc))
+	count := func(name string) int {
+		if txn == nil {
+			return 0
+		}
+		return len(txn.DatasetEntities[name])
+	}
+	if valid {
+		want1 := []int{1, 0, 2}[d1]
+		h.Assert(err == nil && txn != nil && count("ds1") == want1, "a valid transaction payload parses to the entities it denotes :: doc="+doc)
+		if d2 > 0 && err == nil {
+			h.Assert(count("ds2") == []int{1, 0, 2}[d2-1], "the second dataset's entities are parsed :: doc="+doc)
+		}
+	} else if c == 1 || c == 5 {
+		// a context without (or with null) namespaces is acceptable when no identifier needs a
+		// prefix: either outcome is allowed, but nothing malformed may be accepted with it
+		if err == nil {
+			h.Assert(d1 < 3 && count("ds1") == []int{1, 0, 2}[d1%3], "with a context that declares no namespaces only a payload whose datasets are well formed may be accepted :: doc="+doc)
+		}
+	} else {
+		h.Assert(err != nil, "a transaction payload that is not valid is rejected with an error :: doc="+doc)
+	}
+	if err != nil {
+		h.Assert(txn == nil, "no transaction is returned together with an error")
+	}
+	h.Observe("err", err != nil)
+}
